@@ -222,6 +222,17 @@ int main(int argc, char** argv) {
     };
     for (auto& a : allowedJoint) a = normalise(a);
 
+#if defined(__SANITIZE_THREAD__)
+    const bool inProc = true;
+#elif defined(__has_feature)
+#if __has_feature(thread_sanitizer)
+    const bool inProc = true;
+#else
+    const bool inProc = false;
+#endif
+#else
+    const bool inProc = false;
+#endif
     vx::Explorer ex;
     vx::Config cfg;
     cfg.bound = progs[idx].bound;
@@ -238,17 +249,6 @@ int main(int argc, char** argv) {
     // atomic-access pool) and the hooked atomics that are shared BETWEEN clients (tags "shared-*").
     // Atomics on data private to one evaluating client are not scheduling points (sound for
     // race-free code; race freedom is what the TSan variant monitors on the same schedules).
-#if defined(__SANITIZE_THREAD__)
-    const bool inProc = true;
-#elif defined(__has_feature)
-#if __has_feature(thread_sanitizer)
-    const bool inProc = true;
-#else
-    const bool inProc = false;
-#endif
-#else
-    const bool inProc = false;
-#endif
     World* w0 = inProc ? nullptr : makeWorld();
     auto body = [&]() {
       // in-process exploration (TSan variant): a fresh world per execution, built before the scheduler hooks are armed
